@@ -16,8 +16,10 @@ Streams
             name index `Atoms._atomsdict`) interleaved with edits of the atom list through every form the library offers
             (`del shx.atoms[id]`, `Atom.delete()`, `Atom.name = ...`, `add_atom`) and, rarely, `atom.resi = RESI(...)`;
             then `shx._assign_atoms_to_restraints()` is evaluated again (twice: both results must agree) and compared with
-            the spec on the EDITED atom list (theorem warnings_after_history; the attribute assignment is the open
-            finding C17|history|setResi|*). The edited atom list itself is compared with the model of the edits.
+            the spec on the EDITED atom list (theorem history_statement: every history, also the attribute assignment,
+            since the check rebuilds the index). Before that evaluation `get_atom_by_name('NAME_n')` is observed for
+            NAME x residue: against the model always, against the edited atom list for histories of API edits
+            (theorem lookup_after_history). The edited atom list itself is compared with the model of the edits.
 Files are read with read_string, read_file, or by a second read on an object that has parsed a different file before.
 A diverging case is minimised (one restraint, shortest history, plain read form) before it is reported; one report per
 class of divergence.
@@ -163,6 +165,7 @@ def apply_op(shx, op, k):
     kind = op[0]
     if kind == 'check':
         shx._assign_atoms_to_restraints()
+        shx.atoms.get_atom_by_name('C1')        # a look-up: the index is certainly rebuilt now
     elif kind == 'touch':
         shx.atoms.get_atom_by_name(op[1])
     elif kind == 'delItem':
@@ -182,8 +185,8 @@ def apply_op(shx, op, k):
 
 
 def driver_ops(ops):
-    """the history as the model sees it: the parse ends with one evaluation; a look-up builds the index like one"""
-    return [['check']] + [['check'] if op[0] == 'touch' else list(op) for op in ops]
+    """the history as the model sees it: the parse ends with one evaluation"""
+    return [['check']] + [['lookup'] if op[0] == 'touch' else list(op) for op in ops]
 
 
 def observe_impl(case):
@@ -197,13 +200,17 @@ def observe_impl(case):
         return dict(error=f'restraints parsed {got_restr}, file has {case["restraints"]}')
     messages = shx.restraint_errors
     ops = case.get('ops')
+    lookups = None
     if ops:
+        shx.atoms.get_atom_by_name('C1')            # the parse ended with an evaluation; make sure the index is built
         with contextlib.redirect_stdout(io.StringIO()):
             for k, op in enumerate(ops):
                 try:
                     apply_op(shx, op, k)
                 except Exception as e:
                     return dict(error=f'history op {op} raised {type(e).__name__}: {e}')
+            # the name index after the history, before the evaluation rebuilds it
+            lookups = [bool(shx.atoms.get_atom_by_name(f'{nm}_{n}')) for nm, n in probes(case)]
             messages = shx._assign_atoms_to_restraints()
             again = shx._assign_atoms_to_restraints()
         if again != messages:
@@ -215,7 +222,12 @@ def observe_impl(case):
             names = re.sub(r'\*\*\*\s*$', '', names.strip()).strip()
             lists.append(sorted({parse_report(n.strip()) for n in names.split(',') if n.strip()}))
     return dict(lists=[[list(p) for p in l] for l in lists], nmsg=len(messages), raw=list(messages),
-                atoms_after=[[a.name, a.resinum] for a in shx.atoms])
+                atoms_after=[[a.name, a.resinum] for a in shx.atoms], lookups=lookups)
+
+
+def probes(case):
+    """(NAME, residue) pairs looked up after a history: the first names x every residue of the file"""
+    return [[nm, n] for n in sorted({b[1] for b in case['blocks']}) for nm in NAMES[:3]]
 
 
 def pairset(l):
@@ -269,6 +281,8 @@ def requests_for(case):
         rq = dict(p='C17', op='check', atoms=atoms, resis=resis, kw=kw, toks=toks)
         if case.get('ops'):
             rq['ops'] = driver_ops(case['ops'])
+            if not reqs:
+                rq['probe'] = probes(case)
         reqs.append(rq)
     return reqs
 
@@ -284,8 +298,18 @@ def judge(case, obs, rs):
     open_msg = any(r['spec']['classKnown'] is False for r in rs)   # unknown class: the class message is not constrained
     bad_prop = got != exp_spec or (not anymissing and not open_msg and obs['nmsg'] != 0)
     bad_model = got != exp_model or ((obs['nmsg'] != 0) != any(r['model']['anyMessage'] for r in rs if not r['model']['err']))
+    # look-ups after a history: against the model always, against the edited atom list for histories of API edits
+    # (theorem lookup_after_history; the plain attribute assignment is outside it, the diagnostics are not)
+    stale = []
+    if obs.get('lookups') is not None:
+        lk = rs[0]['lookup']
+        if obs['lookups'] != lk['model']:
+            bad_model = True
+        if rs[0]['spec']['apiOnly'] and obs['lookups'] != lk['spec']:
+            bad_prop = True
+            stale = [tuple(p) for p, a, b in zip(probes(case), obs['lookups'], lk['spec']) if a != b]
     return dict(spec_lists=spec_lists, model_lists=model_lists, got=got, exp_spec=exp_spec, exp_model=exp_model,
-                anymissing=anymissing, bad_prop=bad_prop, bad_model=bad_model)
+                anymissing=anymissing, bad_prop=bad_prop, bad_model=bad_model, stale=stale)
 
 
 def one(ctx, case):
@@ -431,12 +455,11 @@ def evaluate(ctx, cases, stream=None):
                        messages=robs['raw'], model=rmodel)
         where = f' (residues {[(b[0], b[1]) for b in rcase["blocks"] if b[1]]})' + (f' after the history {rops}' if rops else '') + \
                 (f' [read={rcase["read"]}]' if rcase.get('read', 'string') != 'string' else '')
-        # site of a history divergence: the plain attribute assignment if the history has one (open finding), else the last
-        # edit before the final evaluation (every API edit empties the index, so nothing older can be stale)
+        # site of a history divergence: the last edit before the final evaluation
         redits = [op[0] for op in rops if op[0] not in ('check', 'touch')]
         hsig = ''
         if rops:
-            hsig = 'history|' + ('setResi' if 'setResi' in redits else redits[-1] if redits else 'evaluate') + '|'
+            hsig = 'history|' + (redits[-1] if redits else 'evaluate') + '|'
         if minimised and rcase.get('read', 'string') != 'string':
             hsig += f'read={rcase["read"]}|'        # the read form is part of the site only if the plain form does not diverge
         if want_prop:
@@ -446,6 +469,10 @@ def evaluate(ctx, cases, stream=None):
             elif flat_spec - flat_got:
                 direction, diff = 'missed-warning', flat_spec - flat_got
                 what = f'{rcase["restraints"]}: does not report {sorted(diff)}, which exist in no addressed residue'
+            elif jj.get('stale'):
+                direction, diff = 'stale-name-index', set()
+                what = (f'get_atom_by_name answers for {jj["stale"]} as before the edit (atom list now '
+                        f'{robs["atoms_after"]})')
             elif rgot != rspec:
                 direction, diff = 'grouping', flat_spec
                 what = f'{rcase["restraints"]}: reported {rgot}, expected per restraint {rspec}'
@@ -749,8 +776,7 @@ def history_case(rng):
     return case
 
 
-# the inputs of the Lean witnesses of the open finding (history_fails_on, stale_index_misses_moved_atom), replayed on the
-# implementation in every run
+# the inputs of the Lean witnesses (legacy_stale_index_misses_moved_atom, opsA), run on the implementation in every run
 _BLOCKS_A = [['', 0, ['C1', 'c2'], 'implicit'], ['ccf3', 1, ['C1', 'c2'], 'class-first'], ['ccf3', 2, ['C1'], 'class-first'],
              ['', 7, ['C1', 'C3'], 'class-first']]
 CORPUS = [
